@@ -64,6 +64,26 @@ func distGen(r *rand.Rand, n int, tier string, emit func(Case)) {
 			if tb < 6 {
 				b = l.leafOfType(tb)
 			}
+		case i%10 == 5:
+			// many parts, one of them the point at the origin (the R-tree's degenerate all-zero box), spread out so that
+			// the bulk-loaded tree has several leaves; the other operand is near one of the parts
+			l.N = 8
+			pts := []geom.Point{geom.XY{}.AsPoint()}
+			for k, m := 0, 4+r.Intn(8); k < m; k++ {
+				pts = append(pts, l.pt().AsPoint())
+			}
+			r.Shuffle(len(pts), func(x, y int) { pts[x], pts[y] = pts[y], pts[x] })
+			a = geom.NewMultiPoint(pts).AsGeometry()
+			if r.Intn(3) == 0 {
+				a = geom.NewGeometryCollection([]geom.Geometry{a, l.lineString().AsGeometry()}).AsGeometry()
+			}
+			b = l.pt().AsPoint().AsGeometry()
+			if r.Intn(2) == 0 {
+				b = l.any(6)
+			}
+			if r.Intn(2) == 0 {
+				a, b = b, a
+			}
 		case i%10 == 0:
 			a, b = l.longLine().AsGeometry(), l.any(6)
 			if r.Intn(2) == 0 {
